@@ -22,7 +22,8 @@ const (
 	LBox
 	LElem
 	LStruct
-	LByte // one byte of a byte-array cell
+	LByte   // one byte of a byte-array cell
+	LByteRO // one byte of a byte-string value (read-only)
 )
 
 type pathSel struct {
@@ -166,6 +167,8 @@ type Exec struct {
 	spawned []*ssa.Go
 	entryReach Term
 	parent  *Exec
+	lemmaName string
+	initDepth int
 }
 
 func (x *Exec) markA(reason string) {
@@ -267,6 +270,8 @@ func (x *Exec) readLoc(l *Loc) Term {
 		return x.readStruct(l.Ref, l.Elem)
 	case LByte:
 		return "(bget " + x.getSV(l.SV, l.Sort) + " " + l.Idx + ")"
+	case LByteRO:
+		return "(bget " + l.Ref + " " + l.Idx + ")"
 	}
 	for _, p := range l.Path {
 		u := p.Typ.Underlying().(*types.Struct)
@@ -282,6 +287,10 @@ func (x *Exec) writeLoc(l *Loc, v Term) {
 	}
 	if l.Kind == LByte {
 		x.setSV(l.SV, l.Sort, "(bset "+x.getSV(l.SV, l.Sort)+" "+l.Idx+" "+v+")")
+		return
+	}
+	if l.Kind == LByteRO {
+		x.markA("store into an element of a byte-string value")
 		return
 	}
 	// rebuild nested struct value along the path
